@@ -343,7 +343,12 @@ class ContentIndexParser:
         return self.template_sheets[name]
 
     def get_node_group(
-        self, template_name, data_sheet, data_row_id, template_arguments
+        self,
+        template_name,
+        data_sheet,
+        data_row_id,
+        template_arguments,
+        rapidpro_container=None,
     ):
         if (data_sheet and data_row_id) or (not data_sheet and not data_row_id):
             with logging_context(f"{template_name}"):
@@ -352,7 +357,9 @@ class ContentIndexParser:
                     data_sheet,
                     data_row_id,
                     template_arguments,
-                    RapidProContainer(),
+                    # obj_ids of the rows of the block are recorded into the
+                    # container of the flow that inserts the block
+                    rapidpro_container or RapidProContainer(),
                     parse_as_block=True,
                 )
         else:
